@@ -761,6 +761,9 @@ package lua
 //@ requires Inv_gfn(L) && nargs(L) >= 1 && regsValid(L) && MetaOK(L)
 //@ ensures  "protected-call-of-exactly-the-arguments": isFn(old(arg(L, 1))) ==> ncalls() == old(ncalls()) + 1 && callfn(old(ncalls())) == fnid("(*LState).PCall") && callargInt(old(ncalls()), 1) == old(nargs(L)) - 1 && callargInt(old(ncalls()), 2) == MultRet && callargLV(old(ncalls()), 10) == old(arg(L, 1))
 //@ ensures  "failure-is-false-and-the-error-value": isFn(old(arg(L, 1))) && callresInt(old(ncalls()), 0) != 0 ==> result == 2 && top(L) == base(L) + 2 && L.reg.array[base(L)] == LFalse
+// the error OBJECT of an ApiError (whatever its type: error(42) delivers the number 42) is pushed as it is
+//@ let@"L.Push(aerr.Object)" eobj = aerr.Object
+//@ ensures  "the-error-object-is-delivered-as-it-is": isFn(old(arg(L, 1))) && callresInt(old(ncalls()), 0) != 0 && hastype(callresInt(old(ncalls()), 0), "*ApiError") ==> L.reg.array[base(L) + 1] == eobj
 //@ ensures  "success-is-true-and-all-results": isFn(old(arg(L, 1))) && callresInt(old(ncalls()), 0) == 0 ==> L.reg.array[base(L)] == LTrue && result == top(L) - base(L) && result >= 1
 //@ raises when true
 //@ modifies everything
